@@ -53,6 +53,21 @@ CORPUS_REFS = [
      "probes": [{"group": ["m"], "var": "q0", "attr": "coordinates", "pattr": [["x", None]]}]},
 ]
 
+# 8d03027: a name occurring twice, two spellings of one target: no occurrence may be lost
+CORPUS_REFS.append(
+    {"tree": {"name": "", "dims": [["x", 3], ["y", 2]], "vars": [{"name": "x", "dims": ["x"]}, {"name": "y", "dims": ["y"]}], "subs": [
+        {"name": "m", "dims": [], "vars": [{"name": "q1", "dims": []}], "subs": [
+            {"name": "k", "dims": [], "vars": [{"name": "q0", "dims": ["x", "y"]}, {"name": "q1", "dims": []}], "subs": [
+                {"name": "m", "dims": [], "vars": [{"name": "q2", "dims": []}], "subs": []}]}]}]},
+     "probes": [
+         {"group": ["m", "k"], "var": "q0", "attr": "cell_methods",
+          "pattr": [["x", []], ["y", ["maximum"]], ["y", []], ["x", ["mean"]]]},
+         {"group": ["m", "k"], "var": "q0", "attr": "cell_methods", "pattr": [["x", ["mean"]], ["/x", ["maximum"]]]},
+         {"group": ["m", "k", "m"], "var": "q2", "attr": "geometry", "pattr": [["../q1", None], ["../../k/q1", None]]},
+         {"group": ["m", "k"], "var": "q0", "attr": "coordinates", "pattr": [["/m/q1", None], ["../q1", None], ["x", None], ["x", None]]},
+         {"group": ["m", "k"], "var": "q0", "attr": "cell_measures", "pattr": [["area", ["../q1"]], ["area", ["/m/q1"]]]},
+     ]})
+
 # F11b: names for which the flattened names collide (valid netCDF files)
 CORPUS_COLLIDE = [
     {"tree": {"name": "", "dims": [["x", 3]], "vars": [{"name": "a__b", "dims": ["x"]}, {"name": "q0", "dims": []}], "subs": [
@@ -215,9 +230,60 @@ def rand_probe(rng, tree, k):
         attr = "tie_point_mapping"
         xs = refs(3)
         pattr = [[xs[0], xs[1:]]]
-    keys = [k_ for k_, _ in pattr]
-    assert len(set(keys)) == len(keys)
+    # (since 8d03027 the parsed attribute is an ordered list) a name occurring twice, and one
+    # target spelled in two ways: every occurrence must be replaced in place, none merged
+    r2 = rng.random()
+    listform = all(v is None for _, v in pattr)
+    if r2 < 0.12 and listform:
+        k = rng.choice(pattr)[0]
+        pattr.insert(rng.randint(0, len(pattr)), [k, None])
+    elif r2 < 0.3 and listform and attr not in LIST_DIM_ATTRS:
+        sp = two_spellings(rng, tree, gpath, "var")
+        for x in sp:
+            pattr.insert(rng.randint(0, len(pattr)), [x, None])
+    elif r2 < 0.3 and listform:
+        sp = two_spellings(rng, tree, gpath, "dim")
+        for x in sp:
+            pattr.insert(rng.randint(0, len(pattr)), [x, None])
+    elif r2 < 0.35 and attr == "cell_methods":
+        # "a: b: mean b: a: maximum", "a: mean a: maximum", or one axis in two spellings
+        sp = two_spellings(rng, tree, gpath, "dim") or [x for x, _ in pattr]
+        a_, b_ = sp[0], sp[-1]
+        form = rng.choice([0, 1, 2])
+        if form == 0:
+            pattr = [[a_, []], [b_, ["mean"]], [b_, []], [a_, ["maximum"]]]
+        elif form == 1:
+            pattr = [[a_, ["mean"]], [a_, ["maximum"]]]
+        else:
+            pattr = [[a_, ["mean"]], [b_, ["maximum"]], ["area", ["sum"]]]
+    elif r2 < 0.3 and attr in VALUE_ATTRS:
+        sp = two_spellings(rng, tree, gpath, "var")
+        if len(sp) == 2:
+            pattr = [["area", [sp[0]]], ["area", [sp[1]]]] if rng.random() < 0.5 else [["area", [sp[0]]], ["volume", [sp[1]]]]
     return {"group": gpath, "var": var, "attr": attr, "pattr": pattr, "coords": coords}
+
+
+def two_spellings(rng, tree, gpath, kind):
+    """Two different reference strings for one element of the tree, as seen from gpath
+    (absolute, relative, a relative path taking one more step up, the bare name)."""
+    elts = []
+    for p, g in all_groups(tree):
+        names = [d for d, _ in g["dims"]] if kind == "dim" else [v["name"] for v in g["vars"] if not v["name"].startswith("q")]
+        elts += [(p, n) for n in names]
+    if not elts:
+        return []
+    p, n = rng.choice(elts)
+    common = 0
+    while common < min(len(p), len(gpath)) and p[common] == gpath[common]:
+        common += 1
+    forms = ["/" + "/".join(list(p) + [n])]
+    for c in ([common, common - 1] if common >= 1 else [common]):
+        rel = "../" * (len(gpath) - c) + "/".join(list(p[c:]) + [n])
+        if "/" in rel:
+            forms.append(rel)
+    forms.append(n)
+    forms = list(dict.fromkeys(forms))
+    return rng.sample(forms, 2) if len(forms) >= 2 else forms
 
 
 def spec_to_raw(t):
@@ -352,8 +418,9 @@ def cf_check_attr(T, rules, probe, strict, obs):
         return "exc" in obs
     if "ok" not in obs:
         return False
-    # every combination of acceptable targets (more than one only for lateral ties), through
-    # the dict that collapses keys resolving to the same name
+    # every combination of acceptable targets (more than one only for lateral ties); every word
+    # is replaced in place: nothing is merged (CF 2.7 says what a reference denotes, not that two
+    # references to one thing become one)
     import itertools
     slots = []
     for ks, vs in toks:
@@ -366,11 +433,11 @@ def cf_check_attr(T, rules, probe, strict, obs):
         if n > 64:
             break
         it = iter(combo)
-        d = {}
+        d = []
         for ks, vs in toks:
             k = next(it)
-            d[k] = None if vs is None else [next(it) for _ in vs]
-        if render_pattr(list(d.items())) == obs["ok"]:
+            d.append([k, None if vs is None else [next(it) for _ in vs]])
+        if render_pattr(d) == obs["ok"]:
             return True
     return False
 
@@ -599,6 +666,14 @@ def field_spec(rng):
         spec["grid_mapping"] = {"ncvar": "crs", "groups": place([]), "coords": auxes}
     if rng.random() < 0.4:
         spec["cell_methods"] = [{"axes": [rng.choice(data_axes)], "method": "mean"}]
+        r3 = rng.random()
+        if r3 < 0.3:
+            # the same axis named by two cell methods
+            spec["cell_methods"].append({"axes": list(spec["cell_methods"][0]["axes"]), "method": "maximum"})
+        elif r3 < 0.6 and naxes >= 2:
+            # "x: y: maximum y: x: mean": every axis named twice
+            a2 = rng.sample(data_axes, 2)
+            spec["cell_methods"] = [{"axes": a2, "method": "maximum"}, {"axes": a2[::-1], "method": "mean"}]
     if real_mode == "deep":
         spec["mode"] = "deep"
     if real_mode == "varshadow":
@@ -847,6 +922,14 @@ def run(chk, model_ok):
             for f_ in form:
                 bump("ref:" + f_)
             bump("attr:" + pr["attr"])
+            ws = [k for k, _ in pr["pattr"]] + [x for _, v in pr["pattr"] for x in (v or [])]
+            if len(set(k for k, _ in pr["pattr"])) < len(pr["pattr"]):
+                bump("ref:name-occurs-twice")
+            o_ = ob["lax"].get("ok")
+            if o_ is not None and len(pr["pattr"]) > 1:
+                outw = [w.rstrip(":") for w in o_.split() if not w.startswith("REF_NOT_FOUND")]
+                if len(set(ws)) == len(ws) and any(outw.count(w) > 1 and w not in ("mean", "maximum", "sum") for w in outw):
+                    bump("ref:two-spellings-resolve-to-one-name")
             distinct.add(lib.canon([r["tree"], pr["group"], pr["attr"], pr["pattr"], pr["coords"]]))
             for strict in (False, True):
                 o = ob["strict" if strict else "lax"]
